@@ -1,7 +1,7 @@
 INIT Init
 NEXT Next
 CONSTANTS W = 3
- Variant = "f1"
+ Variant = "mul_carry"
 INVARIANT Correct
 INVARIANT MulCorrect
 CHECK_DEADLOCK FALSE
